@@ -128,4 +128,15 @@ var props = map[string]Prop{
 			har("rangemut", "./harness/c06", "TestC06RangeMutation", true, 300, 15000, 8, 16),
 		},
 	},
+	"C03": {
+		ID: "C03", Level: "exploration",
+		Rule: "programs/bounds: 390 operation functions (index read/write/address on arrays, array pointers, slices, strings, zero-size and nested slices x 11 index types; 2- and 3-index slice expressions x 5 index types incl. constant bounds; make of slices/maps/chans with element sizes 0/1/8/4096; slice->array conversions; nil dereference in every syntactic position with fields at offsets 0..8 MiB and values of 8 B..1 MiB; nil map, type assertions, integer division, channel misuse; side-effect ordering around the faulting operand) each shaped trace(1); op; trace(2) and run `repeat` times under a deferred recover. rapid draws (operation, len, cap, lo, hi, max, idx, nil-ness flags, dynamic type, repeat): half of the tuples in range, the rest from {-1, 0, 1, len-1, len, len+1, cap-1, cap, cap+1, type extremes, 2^31, 2^32, 2^63}. Compared with native gc execution: panicked or not, normalised error class, trace points, helper call order, surviving side effects, result, and (separately keyed) whether the recovered value is a runtime.Error. Non-trivial: a coordinate within +-1 of a bound or at a type extreme, or repeat >= 2; distinct by the whole tuple.",
+		Assumptions: []string{
+			"panic messages are compared by class (index / slice / nil dereference / nil map / assertion / divide / make / conversion / channel), not by text",
+			"make sizes are either < 2^17 or absurd (negative, >= 2^56): sizes in between would really allocate",
+		},
+		Jobs: []Job{
+			har("tuples", "./harness/c03", "TestC03Tuples", true, 12000, 1000000, 8, 16),
+		},
+	},
 }
